@@ -121,6 +121,12 @@ func NewExec(cfg M) (*Exec, error) {
 	if _, has := cfg["limit"]; !has {
 		x.Limit = 8192
 	}
+	if S(cfg, "limit") == "sym" {
+		x.Limit = 8192
+		if v, ok := cfg["_limit"]; ok {
+			x.Limit = AsInt(v)
+		}
+	}
 	opts := []wire.OptionFn{wire.Logger(quietLogger()), wire.MessageBufferSize(x.Limit)}
 	if S(cfg, "auth") == "clear" {
 		opts = append(opts, wire.SessionAuthStrategy(wire.ClearTextPassword(x.validate)))
@@ -164,6 +170,19 @@ func NewExec(cfg M) (*Exec, error) {
 	go func() { x.served <- srv.Serve(x.Lis) }()
 	return x, nil
 }
+
+// EffLimit is the message limit in force (the library default for a
+// non-positive setting).
+func (x *Exec) EffLimit() int {
+	if x.Limit <= 0 {
+		return 1 << 24
+	}
+	return x.Limit
+}
+
+// SymLimits are the concrete limits a symbolic configuration ("sym") is
+// instantiated with.
+var SymLimits = []int{16, 17, 64, 4095, 4096, 4097, 8192, 65536}
 
 // Dial opens a new in-memory connection to the server.
 func (x *Exec) Dial() *mem.Conn {
